@@ -232,13 +232,26 @@ func c07r2(c *core.Ctx) {
 				return
 			}
 			n++
-			b, ok := res(r)[0].(*ssa.BinOp)
-			if !ok || b.Op != token.EQL || !isLenCall(b.X, ofParam) {
-				good = false
-				return
+			// Len() == 0, or a conjunction  ok && Len() == 0  (false where the operand before it is false)
+			vals := []ssa.Value{res(r)[0]}
+			if ph, isPhi := res(r)[0].(*ssa.Phi); isPhi {
+				vals = nil
+				for _, e := range ph.Edges {
+					if k, isK := core.ConstInt(e); isK && k == 0 {
+						continue
+					}
+					vals = append(vals, e)
+				}
 			}
-			if k, isK := core.ConstInt(b.Y); !isK || k != 0 {
-				good = false
+			for _, v := range vals {
+				b, ok := v.(*ssa.BinOp)
+				if !ok || b.Op != token.EQL || !isLenCall(b.X, ofParam) {
+					good = false
+					return
+				}
+				if k, isK := core.ConstInt(b.Y); !isK || k != 0 {
+					good = false
+				}
 			}
 		})
 		// the Len() of the asserted value is asked only where the assertion succeeded
